@@ -124,6 +124,32 @@ func c18Case(r *obs.Run, i int) {
 				}
 			}
 		}
+		// every byte under every encoding, through both decoders: neither panics, and the decoder of the other score type
+		// is the own-type decoder followed by the conversion
+		for _, e := range append(append([]alphabet.Encoding(nil), c18AllEncs...), alphabet.None) {
+			for b := 0; b < 256; b++ {
+				func() {
+					defer func() {
+						if p := recover(); p != nil {
+							r.Violate("decode-panic", fmt.Sprintf("decoding byte %d under %s panicked: %v", b, encNames[e], p), c18w{"decode", b, encNames[e], fmt.Sprint(p), nil})
+						}
+					}()
+					qp, qs := e.DecodeToQphred(byte(b)), e.DecodeToQsolexa(byte(b))
+					switch e {
+					case alphabet.None:
+					case alphabet.Solexa:
+						if qp != qs.Qphred() {
+							r.Violate("decode-cross-type", fmt.Sprintf("Solexa.DecodeToQphred(%d)=%d, DecodeToQsolexa then Qphred gives %d", b, qp, qs.Qphred()), c18w{"decode", b, encNames[e], int(qp), int(qs.Qphred())})
+						}
+					default:
+						if qs != qp.Qsolexa() {
+							r.Violate("decode-cross-type", fmt.Sprintf("%s.DecodeToQsolexa(%d)=%d, DecodeToQphred then Qsolexa gives %d", encNames[e], b, qs, qp.Qsolexa()), c18w{"decode", b, encNames[e], int(qs), int(qp.Qsolexa())})
+						}
+					}
+				}()
+				r.Count("bytes_decoded_both_ways", 1)
+			}
+		}
 	case 1: // Solexa under Solexa encoding
 		for s := -128; s < 128; s++ {
 			in := s >= -5 && s <= 62
